@@ -13,7 +13,8 @@
 EXTENDS Integers, Sequences, TLC, Json
 CONSTANTS MaxLen
 
-In(t, m) == [t |-> t, math |-> m]
+In(t, m) == [t |-> t, math |-> m, auto |-> FALSE]
+Auto(t, m) == [t |-> t, math |-> m, auto |-> TRUE]        \* spelt in MATH / ASCII but given without a syntax hint (the analyser guesses)
 Pool == <<
   In(<<"$X1", "EQUAL", "$X1">>, TRUE),
   In(<<"$X1", "EQUAL", "$X1">>, FALSE),
@@ -56,7 +57,12 @@ Pool == <<
   In(<<"$X1", "IN", "$A1">>, TRUE),
   In(<<"(", "$X1", "DECART", "$X1", ")", "DECART", "$X1">>, FALSE),
   In(<<"$%g01", "EQUAL", "$%g01">>, TRUE),
-  In(<<"DECLARATIVE", "{", "(", "$a", ",", "$b", ")", "IN", "$S1", "|", "$a", "EQUAL", "$b", "}">>, TRUE)
+  In(<<"DECLARATIVE", "{", "(", "$a", ",", "$b", ")", "IN", "$S1", "|", "$a", "EQUAL", "$b", "}">>, TRUE),
+  Auto(<<"$X1", "UNION", "$X1">>, TRUE),                                                                   \* un-hinted inputs: the guess must not depend on the predecessor
+  Auto(<<"$X1", "DECART", "$X1">>, FALSE),
+  Auto(<<"$X1", "UNION", "$X1">>, FALSE),
+  In(<<"$F2", "[", "BOOLEAN", "(", "$X1", ")", "]">>, TRUE),                                               \* a property argument where the callee needs a value: the audit fails inside the callee
+  In(<<"$F2", "[", "$X1", "]">>, TRUE)
 >>
 
 VARIABLE hist
